@@ -487,6 +487,23 @@ class Prop(Check):
         "Resolve.C09_query_order_indep",
         "Resolve.C09_query_list_result",
         "Resolve.C09_query_list_success",
+        "Resolve.C09_success_iff_order",
+        "Resolve.C09_loop_order_valid",
+        "Resolve.C09_validOrder_iff",
+        "Resolve.C09_derivable_iff_order",
+        "Resolve.C09_all_derivable_iff_order",
+        "Resolve.C09_error_exact_order",
+        "Resolve.C09_order_sub_resolved",
+        "Resolve.C09_order_result_indep",
+        "Resolve.C09_files_round_robin",
+        "Resolve.C09_files_success_iff_order",
+        "Resolve.C09_files_order_indep",
+        "Resolve.C09_query_success_iff_order",
+        "Resolve.C09_query_order_valid",
+        "Resolve.C09_terminates_any_provider",
+        "Resolve.C09_any_provider_partition",
+        "Resolve.C09_loop_is_oracle",
+        "Resolve.C09_nonmono_order_false",
     ]
     DRIVER = "Drivers/Resolve.lean"
     QUICK_CASES = 480
@@ -768,8 +785,16 @@ class Prop(Check):
         how = case_how(case)
         hold = holders(case["files"])
         walks = {e["r"]: e for _, _, e in hold.values() if e["k"] in WALKS}
+        # the sequence observed on the implementation is handed over as well: the model's executable form of
+        # "every reference resolves given the ones resolved before it" (`validOrder`) is evaluated on it
+        # (the end of a `hike` is resolved by a provider attached in the grammar and not logged: no sequence then)
+        hiking = any(e["k"] == "hike" for _, _, e in hold.values())
+        seen = {} if hiking or obs.get("outcome") not in ("ok", "unresolvable") else {"obs_seq": obs["seq"]}
         if not how and not walks:
-            return {"op": "resolve", "refs": self.order(case), "deps": case["deps"], "lists": lists}
+            # file by file: the model runs one pending list per model file, stepped in turn (`loopFiles`)
+            per_file = [file_refs(case["files"][f]) for f in file_order(case["files"])]
+            return {"op": "resolve", "refs": self.order(case), "deps": case["deps"], "lists": lists,
+                    "files": per_file, **seen}
         # providers that ask the resolver: the `_crossrefs` list of every model file takes part
         order = file_order(case["files"])
         slot = {f: n for n, f in enumerate(order)}
@@ -793,7 +818,7 @@ class Prop(Check):
                 else:
                     ws.append([1, slot[p[0]], p[1], p[2]])
             waits.append([k, ws])
-        return {"op": "resolveq", "files": files, "waits": waits, "lists": lists}
+        return {"op": "resolveq", "files": files, "waits": waits, "lists": lists, **seen}
 
     def compare(self, case, obs, out):
         if "err" in out:
@@ -806,6 +831,16 @@ class Prop(Check):
         mseq = [r for r in out["seq"] if r not in hikes]  # (a provider attached in the grammar is not observed)
         if obs["seq"] != mseq:
             return f"resolution sequence differs: impl {obs['seq']} model {mseq}"
+        # the two list models (fused `attrAfter`, Python-level `RefList.run`) under the loop's sequence
+        if out.get("keyed") != out["lists"]:
+            return f"list models disagree under the loop: fused {out['lists']}, keyed {out.get('keyed')}"
+        # literal wording: the loop's sequence / the observed sequence resolves every reference given the ones before it
+        if out.get("order_ok") is not True:
+            return f"the model's resolution sequence {out['seq']} is not a valid order by `validOrder`"
+        if out.get("obs_order_ok") is False:
+            return f"the observed resolution sequence {obs['seq']} is not a valid order by `validOrder`"
+        if "pending_files" in out and [r for f in out["pending_files"] for r in f] != out["pending"]:
+            return "model: pending references per file do not add up"
         if obs["outcome"] == "ok" and "values" in obs:
             attrs = case_attrs(case)
             got = [v for a, v in zip(attrs, obs["values"]) if a["list"]]
